@@ -54,7 +54,17 @@ MD_TEMPLATES = {
     "G": ("> ", 1),     # continuation
     "X": ("", 2),       # two letters: expectation / prose
     "R": ("[7]", 0),    # exit code
+    "L": ("````s", 0),  # scrut fence of four backticks (nested shorter fences are content)
+    "K": ("````", 0),   # bare fence of four backticks
+    "I": ("  ```", 0),  # an indented backtick run: never a fence
 }
+FENCES = {"F": 3, "V": 3, "E": 3, "L": 4, "K": 4}      # template → number of backticks at the start of the line
+SCRUT_FENCES = ("F", "L")
+
+
+def closes(opener, t):
+    """a block ends at the first later line that starts with the opener's backticks"""
+    return t in FENCES and FENCES[t] >= FENCES[opener]
 
 
 def md_line(ctx, t, i):
@@ -79,15 +89,15 @@ def md_reference(seq):
     tests_since_title = 0
     while i < n:
         t = seq[i]
-        if t in ("F", "V", "E"):
-            # a block: until the next line starting with ``` or the end of the document
+        if t in FENCES:
+            # a block: until the next line starting with the opener's backticks or the end of the document
             j = i + 1
-            while j < n and seq[j] not in ("F", "V", "E"):
+            while j < n and not closes(t, seq[j]):
                 j += 1
             body = list(range(i + 1, j))
-            if t == "E":
+            if t in ("E", "K"):
                 return "error"       # bare fence: must be rejected (missing language) — or at least not parsed into tests
-            if t == "F":
+            if t in SCRUT_FENCES:
                 k = 0
                 while k < len(body) and seq[body[k]] == "H":
                     k += 1           # leading comment lines
@@ -114,7 +124,9 @@ def md_reference(seq):
                             exit_code = 7
                         else:
                             exps.append(x)
-                    if len(last_title_run) == 1 and tests_since_title == 0:
+                    if any(seq[x] == "I" for x in last_title_run):
+                        title = "skip"       # an indented backtick run is a fence for CommonMark, a paragraph for others: left open
+                    elif len(last_title_run) == 1 and tests_since_title == 0:
                         title = last_title_run[0]
                     elif not last_title_run and tests_since_title == 0:
                         title = None
@@ -125,7 +137,7 @@ def md_reference(seq):
             run_open = False
             i = j + 1 if j < n else n
             continue
-        if t in ("P", "X", "H"):
+        if t in ("P", "X", "H", "I"):
             if not run_open:
                 last_title_run = []
                 run_open = True
@@ -234,12 +246,12 @@ def md_post(ctx, args, kind, value):
     return z_and(conds)
 
 
-def md_sequences(max_len, alphabet="PHBFVECGXR"):
+def md_sequences(max_len, alphabet="PHBFVECGXR", need="F"):
     out = []
     for n in range(0, max_len + 1):
         for seq in itertools.product(alphabet, repeat=n):
             s = "".join(seq)
-            if "F" not in s and n > 1:
+            if need not in s and n > 1:
                 continue            # documents without a scrut block are covered once by the short sequences
             out.append(s)
     return out
@@ -292,6 +304,12 @@ def h_md_parse(max_len):
     for s_ in md_sequences(max_len + 2, "PBFCE"):
         if s_ not in seen:
             seqs.append(s_)
+            seen.add(s_)
+    # nested fences: a four-backtick scrut block with three-backtick / indented backtick lines as content
+    for s_ in md_sequences(max_len, "LKIECX", need="L"):
+        if s_ not in seen:
+            seqs.append(s_)
+            seen.add(s_)
     inputs = [("doc=%s" % (s or "(empty)"), mk_md_setup(s)) for s in seqs]
     h = e2.Harness("markdown_parse_documents", md_parse_driver, inputs, md_post, native="markdown_parse", judge=None,
                    describe="parse is Err, or yields exactly the scrut blocks that contain a `$` command, in order, with the written shell "
@@ -557,13 +575,13 @@ def md_blocks(seq):
     i, n = 0, len(seq)
     while i < n:
         t = seq[i]
-        if t in ("F", "V", "E"):
+        if t in FENCES:
             j = i + 1
-            while j < n and seq[j] not in ("F", "V", "E"):
+            while j < n and not closes(t, seq[j]):
                 j += 1
             body = list(range(i + 1, j))
             close = j if j < n else None
-            if t == "F":
+            if t in SCRUT_FENCES:
                 k = 0
                 while k < len(body) and seq[body[k]] == "H":
                     k += 1
@@ -601,14 +619,42 @@ def md_update_expected(seq, moved=False):
             rs = [x for x in code if seq[x] == "R"]
             if rs and rs[-1] != code[-1]:
                 return None          # exit-code line is re-emitted last: only prescribed when it was written last
-            items.append(("orig", open_i))
+            # the fences of a rewritten block may change their length (the statement keeps language / configuration / comments): any
+            # k >= 3 backticks longer than every backtick run that starts a line of the body, the same k for opener and closer
+            min_k = max([3] + [FENCES[seq[x]] + 1 for x in comments + code if seq[x] in FENCES])
+            items.append(("open", open_i, min_k))
             items += [("orig", x) for x in comments]
             if moved and t["pre"]:
                 items += [("orig", x) for x in t["cmd"]] + [("orig", x) for x in t["pre"]] + [("orig", x) for x in code if x not in t["cmd"] and x not in t["pre"]]
             else:
                 items += [("orig", x) for x in code]
-            items.append(("text", "```"))
+            items.append(("close", min_k))
     return items
+
+
+def update_matches_concrete(seq, lines, exp, updated):
+    """concrete twin of the comparison in md_update_post"""
+    if updated is None or not updated.endswith("\n") and exp:
+        return False
+    out = updated.split("\n")[:-1] if updated else []
+    if len(out) != len(exp):
+        return False
+    k_open = None
+    for got, item in zip(out, exp):
+        if item[0] == "orig":
+            if got != lines[item[1]]:
+                return False
+        elif item[0] == "open":
+            info = lines[item[1]][FENCES[seq[item[1]]]:]
+            k_open = len(got) - len(got.lstrip("`"))
+            if k_open < item[2] or got[k_open:] != info:
+                return False
+        elif item[0] == "close":
+            if got != "`" * (k_open or 0) or (k_open or 0) < item[1]:
+                return False
+        elif got != item[1]:
+            return False
+    return True
 
 
 def md_update_driver(ctx, args):
@@ -631,7 +677,11 @@ def md_update_driver(ctx, args):
     u = ctx.call(f, [new_ref(gen), args[0], Slice(outcomes)])
     if u.variant != "Ok":
         return Agg("tuple", None, [SBool(True), SBool(False), Str([])])
-    return Agg("tuple", None, [SBool(True), SBool(True), Str(as_str(u.fields[0]).chars), mk_int(len(tests), "usize")])
+    updated = Str(list(as_str(u.fields[0]).chars))
+    # "the updated document parses to the same commands as the original": parse it again with the real parser
+    r2 = md_parse_driver(ctx, [updated])
+    ctx.notes["reparse"] = (tests, r2)
+    return Agg("tuple", None, [SBool(True), SBool(True), updated, mk_int(len(tests), "usize")])
 
 
 def md_update_post(ctx, args, kind, value):
@@ -649,10 +699,51 @@ def md_update_post(ctx, args, kind, value):
         exp = [("orig", i) for i in range(len(seq))]
     if not f[1].v:
         return False
-    want = []
-    for kind_, x in exp:
-        want += (lines[x] if kind_ == "orig" else [SInt(ord(c), "char") for c in x]) + [SInt(10, "char")]
-    return same(list(f[2].chars), want)
+    tests, r2 = ctx.notes["reparse"]
+    if r2.variant != "Ok":
+        return False             # the updated document no longer parses
+    tests2 = as_items(r2.fields[0].fields[1])
+    if len(tests2) != len(tests):
+        return False
+    again = []
+    for t1, t2 in zip(tests, tests2):
+        again.append(same(list(as_str(field_of(t1, "shell_expression")).chars), list(as_str(field_of(t2, "shell_expression")).chars)))
+        e1, e2_ = as_items(field_of(t1, "expectations")), as_items(field_of(t2, "expectations"))
+        if len(e1) != len(e2_):
+            return False
+        for a, b in zip(e1, e2_):
+            again.append(same(list(as_str(a.fields[3]).chars), list(as_str(b.fields[3]).chars)))
+    if z_and(again) is False:
+        return False
+    # line-wise comparison (newlines of the templates are concrete, payload letters are never newlines)
+    out, cur = [], []
+    for ch in f[2].chars:
+        if ch.concrete and ch.v == 10:
+            out.append(cur)
+            cur = []
+        else:
+            cur.append(ch)
+    if cur or len(out) != len(exp):
+        return False
+    conds = []
+    k_open = 0
+    for got, item in zip(out, exp):
+        if item[0] == "orig":
+            conds.append(same(got, lines[item[1]]))
+        elif item[0] == "open":
+            info = lines[item[1]][FENCES[seq[item[1]]]:]
+            k_open = 0
+            while k_open < len(got) and got[k_open].concrete and got[k_open].v == ord("`"):
+                k_open += 1
+            if k_open < item[2]:
+                return False
+            conds.append(same(got[k_open:], info))
+        elif item[0] == "close":
+            if k_open < item[1] or not all(c.concrete and c.v == ord("`") for c in got) or len(got) != k_open:
+                return False
+        else:
+            conds.append(same(got, [SInt(ord(c), "char") for c in item[1]]))
+    return z_and(conds + again)
 
 
 def h_md_update(max_len):
@@ -661,6 +752,12 @@ def h_md_update(max_len):
     for s_ in md_sequences(max_len + 2, "PBFCE"):
         if s_ not in seen and "E" in s_:
             seqs.append(s_)
+            seen.add(s_)
+    # longer fences with backtick runs as content: L····, K, I, and three-backtick lines inside
+    for s_ in md_sequences(max_len, "LKIECX", need="L"):
+        if s_ not in seen:
+            seqs.append(s_)
+            seen.add(s_)
     inputs = [("doc=%s" % (s or "(empty)"), mk_md_setup(s)) for s in seqs]
     h = e2.Harness("markdown_update_passing_tests", md_update_driver, inputs, md_update_post, native="markdown_update", judge=None,
                    describe="updating a document whose tests all pass does not crash and returns it unchanged line for line (prose, other code "
@@ -687,12 +784,31 @@ def replay_update(rep, nat, h, res):
             continue
         if nv.get("tests") == 0:
             exp = [("orig", i) for i in range(len(seq))]
-        want = "".join((lines[x] if k == "orig" else x) + "\n" for k, x in exp)
-        if nv.get("updated") != want:
+        def render(e):
+            k = [3]
+            outl = []
+            for it in e:
+                if it[0] == "orig":
+                    outl.append(lines[it[1]])
+                elif it[0] == "open":
+                    k[0] = it[2]
+                    outl.append("`" * it[2] + lines[it[1]][FENCES[seq[it[1]]]:])
+                elif it[0] == "close":
+                    outl.append("`" * k[0])
+                else:
+                    outl.append(it[1])
+            return "".join(x + "\n" for x in outl)
+        want = render(exp)
+        if "updated" in nv and nv.get("reparsed") != {"Ok": nv.get("original")}:
+            rep.violation("update:updated-document-parses-differently",
+                          "updating %r with all tests passing yields %r, which parses to %s instead of the original %s"
+                          % (doc, nv["updated"], nv.get("reparsed"), nv.get("original")),
+                          {"kind": "eval", "fn": "markdown_update", "args": [doc, ["s"]], "native": [nk, nv], "harness": h.name})
+        elif not update_matches_concrete(seq, lines, exp, nv.get("updated")):
             trunc = nv.get("updated") is not None and len(nv["updated"]) < len(want)
             alt = md_update_expected(seq, moved=True)
-            alt_text = "".join((lines[x] if k == "orig" else x) + "\n" for k, x in alt) if alt and nv.get("tests") != 0 else None
-            rep.violation("update:%s" % ("truncated" if trunc else "lines-before-command-moved-after-it" if nv.get("updated") == alt_text else "changed-passing-document"),
+            moved_ok = bool(alt) and nv.get("tests") != 0 and update_matches_concrete(seq, lines, alt, nv.get("updated"))
+            rep.violation("update:%s" % ("truncated" if trunc else "lines-before-command-moved-after-it" if moved_ok else "changed-passing-document"),
                           "updating %r with all tests passing yields %r instead of %r" % (doc, nv.get("updated", nv), want),
                           {"kind": "eval", "fn": "markdown_update", "args": [doc, ["s"]], "native": [nk, nv], "harness": h.name})
         else:
